@@ -1524,6 +1524,8 @@ const W_TWO_METHODS: &str = "FUNCTION_BLOCK FbA\nVAR\n    acc : DINT;\nEND_VAR\n
 const W_INST: &str = "CONFIGURATION Conf\nVAR_GLOBAL\n    dd : DINT := 9;\nEND_VAR\nTASK Fast (INTERVAL := T#10ms, PRIORITY := 1);\nPROGRAM k WITH Fast : Main;\nEND_CONFIGURATION\n\nPROGRAM Main\nVAR\n    x : DINT;\nEND_VAR\n    x := dd + 1;\n    dd := x;\nEND_PROGRAM\n";
 const W_FIELD: &str = "PROGRAM Run\nVAR\n    hh : Pump;\n    r : DINT;\nEND_VAR\n    r := hh.gg(v := 1);\nEND_PROGRAM\n=====\nTYPE Rec : STRUCT\n    gg : DINT;\nEND_STRUCT\nEND_TYPE\n\nFUNCTION_BLOCK Pump\nMETHOD PUBLIC gg : DINT\nVAR_INPUT\n    v : DINT;\nEND_VAR\n    gg := v + 1;\nEND_METHOD\nEND_FUNCTION_BLOCK\n";
 
+const W_SKIPPED: &str = "PROGRAM Main\nVAR\n    s : Rec;\nEND_VAR\n    s.a := 1;\n    s.b := 2;\nEND_PROGRAM\n=====\nTYPE Rec : STRUCT\n    a : DINT;\n    b : DINT;\nEND_STRUCT\nEND_TYPE\n";
+
 /// (finding class, project text, text that locates the cursor, occurrence index of that text, new name)
 const WITNESSES: &[(&str, &str, &str, usize, &str)] = &[
     ("capture", W_GLOBAL_LOCAL, "g : DINT", 0, "x"),
@@ -1535,6 +1537,7 @@ const WITNESSES: &[(&str, &str, &str, usize, &str)] = &[
     ("pou-dup", W_TWO_METHODS, "t : DINT", 1, "u"),
     ("inst-clash", W_INST, "dd : DINT", 0, "k"),
     ("field-typeid", W_FIELD, "gg : DINT;", 0, "zz"),
+    ("conflict-skipped", W_SKIPPED, "a := 1", 0, "b"),
 ];
 
 fn run_witnesses(out: &mut Out) {
